@@ -297,12 +297,12 @@ def _gen_other_tool(rng, tool, index):
 NUM = re.compile(r"^-?\d+(\.\d+)?$")
 
 
-def mutate(rng, argv, tool):
+def mutate(rng, argv, tool, kind=None):
     argv = list(argv)
-    kind = rng.choice(["drop", "dup", "swap", "number", "number", "unknown",
+    kind = kind or rng.choice(["drop", "dup", "swap", "number", "number", "unknown",
                        "late_option", "second_cmd", "dangling_T", "badfile",
                        "badfile", "outfile", "format", "help", "dash",
-                       "empty_token", "abbrev"])
+                       "empty_token", "abbrev", "end_of_options"])
     n = len(argv)
     if kind == "drop" and n:
         del argv[rng.randrange(n)]
@@ -361,6 +361,13 @@ def mutate(rng, argv, tool):
         argv.insert(rng.randrange(n + 1), rng.choice(HELP_FLAGS))
     elif kind == "dash":
         argv.insert(rng.randrange(n + 1), rng.choice(["-", "--", "---"]))
+    elif kind == "end_of_options":
+        # '--': what follows is positional, whatever it looks like
+        i = rng.randrange(n + 1)
+        argv.insert(i, "--")
+        if rng.random() < 0.6:
+            argv.insert(rng.randint(i + 1, n + 1),
+                        rng.choice(HELP_FLAGS[:2] + ("-q", "-x", "-1")))
     elif kind == "empty_token":
         argv.insert(rng.randrange(n + 1), "")
     elif kind == "abbrev" and n:
@@ -384,10 +391,36 @@ def generate(rng, config):
         c = cligrammar.command_line(rng, tool, files=index,
                                     seed=rng.choice([None, None, 3]))
         argv = c["argv"][1:]
+        if rng.random() < 0.4:
+            k = c["optend"] - 1
+            argv = cligrammar.respell_options(rng, argv[:k]) + argv[k:]
     else:
         argv = _gen_other_tool(rng, tool, index)
     muts = []
-    if config == "mutated":
+    scenario = rng.random() if config == "mutated" else 1
+    if scenario < 0.08 and tool in ("cnfgen", "pbgen"):
+        # the output format asked in one of its spellings, then one broken
+        # number: the error report carries the marker of that format
+        c = cligrammar.command_line(rng, tool, files=index, options=False,
+                                    transforms=False)
+        opts = [rng.choice(["-q", "-v"])] + rng.choice(
+            [["-l"], ["-l"], ["--latex"], ["-o", "out.tex"],
+             ["-o", "out.opb"], ["-of", "latex"], ["-of", "opb"],
+             ["-l", "-o", "x.cnf"]])
+        argv = cligrammar.respell_options(rng, opts) + c["argv"][1:]
+        argv, k = mutate(rng, argv, tool, "number")
+        muts.append(k)
+    elif scenario < 0.14 and tool in ("cnfgen", "pbgen"):
+        # '--' after the name of the formula, an option-like token later
+        c = cligrammar.command_line(rng, tool, files=index, options=False,
+                                    transforms=False)
+        toks = c["argv"][1:]
+        toks.insert(1, "--")
+        toks.insert(rng.randint(2, len(toks)),
+                    rng.choice(["-h", "--help", "-h", "-q", "-x"]))
+        argv = toks
+        muts.append("end_of_options")
+    elif config == "mutated":
         for _ in range(rng.choice([1, 1, 2, 3])):
             argv, k = mutate(rng, argv, tool)
             muts.append(k)
@@ -448,6 +481,7 @@ def generate(rng, config):
 def requested_format(tool, argv):
     fmt = out = None
     i = 0
+    argv = cligrammar.expand_options(argv)
     while i < len(argv):
         a = argv[i]
         if a in ("-of", "--output-format") and i + 1 < len(argv):
@@ -646,11 +680,15 @@ def _one(case, ctx, faults):
         e = fs.entries.setdefault("out.cnf", {"kind": "file", "data": b"",
                                               "plan": {}})
         e["plan"] = {"enospc_at": 10}
-        if "-o" not in argv:
+        if not {"-o", "--output"} & set(cligrammar.expand_options(argv)):
             argv = ["-o", "out.cnf"] + list(argv)
     o = clirun.run_tool(tool, argv, fs, sim=sim,
                         stdin=case["stdin"].encode("utf-8"), **kw)
-    klass, prob = classify(tool, argv, o, fs, bool(case["mutations"]))
+    # (a number replaced by another token or a formula name appended leave
+    # the requested output format as clear as it was)
+    unclear = [m for m in case["mutations"]
+               if m not in ("number", "second_cmd", "dangling_T")]
+    klass, prob = classify(tool, argv, o, fs, bool(unclear))
     ctx.log(tool, argv, [f[:2] for f in faults], o.status, klass,
             prob[0] if prob else None, len(o.stdout), len(o.stderr))
     ctx.probe("outcome:%s" % klass)
